@@ -313,6 +313,9 @@ func archiveTour(res *core.Result, r *core.RNG, preRegistered bool) (*sim, error
 		s.register("valid")
 		d := s.addDevice(1000)
 		s.send(d, 100, 300)
+		s.send(d, 99, 310)
+		s.send(d, 99, 311) // a banned slot: the week archived by a later rotation carries the ban marker, signed as such
+		s.send(d, 98, 5000) // over capacity: banned too
 	}
 	s.archiveOnce(nil, "quiet")
 	time.Sleep(window)
@@ -335,6 +338,8 @@ func archiveTour(res *core.Result, r *core.RNG, preRegistered bool) (*sim, error
 					}
 					if d := s.addDevice(1000); d != nil {
 						s.send(d, w.Now, 400+uint64(gt))
+						s.send(d, w.Now-1, 410)
+						s.send(d, w.Now-1, 411) // banned slot
 					}
 				case "register+device":
 					s.register("valid")
@@ -356,8 +361,11 @@ func archiveTour(res *core.Result, r *core.RNG, preRegistered bool) (*sim, error
 		t0 := time.Now()
 		ok := 0
 		for i := 0; i < 8; i++ {
-			if rr := w.Raw("GET", "/api/v1/archive", nil); rr.Status == 200 {
+			rr := w.Raw("GET", "/api/v1/archive", nil)
+			if rr.Status == 200 {
 				ok++
+			} else if bytes.Contains(rr.Body, []byte("PK\x03\x04")) {
+				s.fail(fmt.Sprintf("a request refused by the limiter (status %d) still received an archive (%d bytes with a zip local-file header)", rr.Status, len(rr.Body)), "c14-refused-but-served")
 			}
 		}
 		if time.Since(t0) < 55*time.Millisecond {
